@@ -51,7 +51,10 @@ def worker(ctx, job):
         "relative": ("target-file", os.path.join(base, "work", "target-file"), os.path.join(base, "work")),
         "relative-dotdot": ("../target-file", os.path.join(base, "work", "target-file"), os.path.join(base, "work", "sub")),
         "via-symlinked-dir": (os.path.join(base, "sym-dir", "target-file"), os.path.join(base, "real-dir", "target-file"), os.path.join(base, "work")),
+        # the target is itself a symbolic link whose stored destination is relative to ITS directory, not to the cwd
+        "alias-with-relative-destination": (os.path.join(base, "real-dir", "alias"), os.path.join(base, "real-dir", "aliased-file"), os.path.join(base, "work")),
     }
+    os.symlink("aliased-file", os.path.join(base, "real-dir", "alias"))
     entries = ["link_to", "link_to_hash", "opts", "opts_hash", "opts_wrong_size", "opts_wrong_integrity", "opts_hash_wrong_size", "opts_hash_wrong_integrity", "session", "opts_size_smaller", "opts_size_zero", "session_append"]
     partials = [0, 1, 8, 9, 16384, "all", "all-into-prefilled-vector"]
     events = ["none", "modify", "truncate", "extend", "remove", "replace"]
